@@ -299,6 +299,10 @@ impl Node {
         let time = self.ctx.borrow().time();
 
         let proc_entry = self.processes.get_mut(&proc).unwrap();
+        proc_entry.event_log.push(EventLogEntry::new(
+            time,
+            ProcessEvent::TimerFired { name: timer.clone() },
+        ));
         if let Some(timer_id) = proc_entry.pending_timers.remove(&timer) {
             self.logger.borrow_mut().log(LogEntry::TimerFired {
                 time,
